@@ -264,6 +264,7 @@ class ILock:
         if self.count == 0:
             self.owner = None
             me.held -= 1
+            ctl.log("U", ctl.lock_names.get(id(self), 99))  # end of the lock block (not a step event)
 
     def __enter__(self):
         self.acquire()
